@@ -57,8 +57,7 @@ func (s *MessagePackSerializer) Serialize(msg wamp.Message) ([]byte, error) {
 
 // Deserialize decodes a msgpack payload into a Message.
 func (s *MessagePackSerializer) Deserialize(data []byte) (wamp.Message, error) {
-	var v []any
-	err := codec.NewDecoderBytes(data, mh).Decode(&v)
+	v, err := decodeList(data, mh)
 	if err != nil {
 		return nil, err
 	}
